@@ -278,7 +278,8 @@ pub fn install_hooks() {
             s.park(0, |g| {
                 g.expected_workers = n;
             });
-            let _ = hm;
+            // read has_more() now: nothing else runs until the spawner reaches its next gate
+            let hm = hm();
             if let Some(r) = REC.lock().unwrap().as_mut() {
                 if let Some(run) = r.runs.last_mut() {
                     run.points.push((code, n, hm.0, hm.1));
